@@ -3,7 +3,7 @@
 From Coq Require Import Reals Lra.
 From Coquelicot Require Import Coquelicot.
 From Interval Require Import Tactic.
-From SpdVerif Require Import Base.Rx Model.Optics Model.Fresnel Gen.Fresnel Proofs.C02_gen.
+From SpdVerif Require Import Base.Rx Model.Optics Model.Fresnel Gen.Fresnel Proofs.C02_gen Proofs.C02_walkoff_biaxial.
 Local Open Scope R_scope.
 
 (* decide the code's branches (number of roots, sign tests, zero tests) by interval evaluation of the scrutinee *)
@@ -46,3 +46,8 @@ Ltac case_walk_gen :=
   rewrite walkoff_gen_unfold; cbv zeta;
   unfold fd_step_gen, n_uniaxial, y_uniaxial, inv2, eps64, Rpower;
   decide_branches; interval with (i_prec 140).
+
+(* biaxial closed form (Proofs/C02_walkoff_biaxial.v) evaluated on the inputs Rust saw *)
+Ltac case_walk_biaxial :=
+  unfold walkoff_biaxial_closed, Yq', Dq, bfun, cfun, bfun', cfun', sfun, sfun', sign_of, index_model, fresnel_index, y_slow, y_fast,
+    fdisc, fb, fc, inv2, crystal_frame, rot_euler, vx, vy, vz; cbn [fst snd]; cbv zeta; interval with (i_prec 120).
